@@ -7,20 +7,23 @@ import gen
 import procs
 from core import derived_rng
 from util import quiet, call
+from props.C15 import Machine
 
 USES_TRANSLATOR = True
 DRIVER = 'MainGen.lean'
 REQUIRED_THEOREMS = ['Usid.C14.generated_assign_eq_hand', 'Usid.C14.generated_window_eq_hand',
                      'Usid.C14.ranges_partition', 'Usid.C14.ranges_cover_disjoint',
                      'Usid.C14.ranks_concat_eq_pending', 'Usid.C14.rank_batches', 'Usid.C14.socket_master']
-RULE = ('[also: lazy reading, verbose=True] random (N positions up to 40, completion mask, rank count R, batch limit - common to all ranks or DIFFERENT per rank, as on '
+RULE = ('[also: the ranks INTERLEAVED on one file - every rank runs compute() in its own thread under a deterministic cooperative scheduler with a fake mpi4py (rank, size, barrier), lowest or highest runnable rank first] [also: lazy reading, verbose=True] random (N positions up to 40, completion mask, rank count R, batch limit - common to all ranks or DIFFERENT per rank, as on '
         'sockets with different memory); the real compute() is run once per '
         'simulated rank on its own copy of the file; non-trivial = at least two ranks or a non-contiguous mask; '
         'plus processor-name lists for group_ranks_by_socket run against a fake MPI object')
 TRUSTED = ['py2lean translator grammar/attribute table (its output is what the theorems are about)',
            'real MPI (barriers, mpio driver, concurrent writers) is not available and not modelled: '
            'ranks are simulated through the public attributes mpi_rank/mpi_size on separate file copies']
-ASSUMPTIONS = ['all cooperating ranks see the same completion mask when they start']
+ASSUMPTIONS = ['the sequential rank simulation gives every rank the same completion mask; the interleaved simulation '
+               '(kind mpi) explores two deterministic schedules (lowest / highest runnable rank first between barriers), '
+               'not every interleaving; real MPI / the mpio driver are not available']
 
 
 def generate(seed, tier):
@@ -65,7 +68,184 @@ def generate(seed, tier):
             mask = [0] * n if rng.random() < 0.6 else [1 if rng.random() < 0.2 else 0 for _ in range(n)]
             cases.append({'kind': 'ranks', 'n': n, 'm': 1, 'mask': mask, 'size': size, 'batch': rng.randint(2, 6),
                           'batches': [rng.randint(2, 6) for _ in range(size)], 'fresh': False})
+    # cooperating ranks on ONE file, interleaved: every rank runs compute() in its own thread under a deterministic
+    # cooperative scheduler (a rank keeps running until it blocks in comm.barrier(); then the lowest-numbered
+    # runnable rank goes on; the barrier opens when every live rank has arrived) - or with the order reversed
+    for i in range({'quick': 10, 'thorough': 80, 'search': 40}[tier]):
+        rng = derived_rng(seed, 'C14m', i)
+        n = rng.randint(2, 16)
+        size = rng.randint(2, 4)
+        fresh = rng.random() < 0.4
+        mask = [0] * n if fresh else [1 if rng.random() < 0.3 else 0 for _ in range(n)]
+        cases.append({'kind': 'mpi', 'n': n, 'm': rng.randint(1, 2), 'mask': mask, 'size': size,
+                      'batch': rng.randint(1, 4), 'fresh': fresh, 'order': rng.choice(['low-first', 'high-first'])})
     return cases
+
+
+class _Scheduler(object):
+    """cooperative, deterministic: exactly one rank runs at a time"""
+
+    def __init__(self, size, order):
+        import threading
+        self.size, self.order = size, order
+        self.cv = threading.Condition()
+        self.waiting, self.done = set(), set()
+        self.current = self._first(list(range(size)))
+
+    def _first(self, ranks):
+        return (min(ranks) if self.order == 'low-first' else max(ranks)) if ranks else None
+
+    def _pick(self):
+        live = [r for r in range(self.size) if r not in self.done]
+        runnable = [r for r in live if r not in self.waiting]
+        if live and not runnable:
+            self.waiting.clear()              # every live rank sits in the barrier: it opens
+            runnable = live
+        self.current = self._first(runnable)
+
+    def _wait_turn(self, rank):
+        while not (self.current == rank and rank not in self.waiting):
+            if not self.cv.wait(timeout=60):
+                raise RuntimeError('scheduler timeout (rank %d)' % rank)
+
+    def start(self, rank):
+        with self.cv:
+            self._wait_turn(rank)
+
+    def barrier(self, rank):
+        with self.cv:
+            self.waiting.add(rank)
+            self._pick()
+            self.cv.notify_all()
+            self._wait_turn(rank)
+
+    def finish(self, rank):
+        with self.cv:
+            self.done.add(rank)
+            self._pick()
+            self.cv.notify_all()
+
+
+def _run_mpi(inp, work):
+    """all ranks on one file, interleaved by the scheduler; a fake mpi4py supplies rank / size / barrier"""
+    import sys
+    import types
+    import threading
+    n, m, mask, size = inp['n'], inp['m'], inp['mask'], inp['size']
+    ds = {'pos': {'sizes': [n], 'rate': [0], 'labels': ['PX'], 'units': ['a'], 'values': [list(range(n))]},
+          'spec': {'sizes': [m], 'rate': [0], 'labels': ['SX'], 'units': ['b'], 'values': [list(range(m))]},
+          'dtype': 'f8'}
+    path = os.path.join(work, 'mpi.h5')
+    with h5py.File(path, 'w') as f:
+        g = f.create_group('G')
+        hm = gen.write_usid(g, ds)
+        if not inp.get('fresh'):
+            procs.make_prior_group(g, 'main', 'RowProc', {'a': 1}, n, mask=mask, source=hm)
+    tls = threading.local()
+
+    class Comm(object):
+        sched = None
+
+        def Get_size(self):
+            return size
+
+        def Get_rank(self):
+            return tls.rank
+
+        def barrier(self):
+            if Comm.sched is not None:
+                Comm.sched.barrier(tls.rank)
+        Barrier = barrier
+
+        def allgather(self, item):
+            return ['node%d' % (r // 2) for r in range(size)]
+    comm = Comm()
+    fake_mpi = types.ModuleType('mpi4py.MPI')
+    fake_mpi.COMM_WORLD = comm
+    fake_mpi.Get_processor_name = lambda: 'node%d' % (tls.rank // 2)
+    fake_pkg = types.ModuleType('mpi4py')
+    fake_pkg.MPI = fake_mpi
+    saved_mods = {k: sys.modules.get(k) for k in ('mpi4py', 'mpi4py.MPI')}
+    saved_driver = h5py.File.driver
+    sys.modules['mpi4py'], sys.modules['mpi4py.MPI'] = fake_pkg, fake_mpi
+    h5py.File.driver = property(lambda self: 'mpio')       # Process believes in MPI only with the parallel driver
+    log = os.path.join(work, 'mpilog.txt')
+    os.environ[procs.LOG_ENV] = log
+    out = {'errors': []}
+    try:
+        RowProc = procs.make_proc_class(collective=True)
+        with h5py.File(path, 'r+') as f:
+            ps = []
+            with quiet(), Machine(8, 2 ** 33):
+                for r in range(size):
+                    tls.rank = r
+                    p = RowProc(f['G/main'], parms={'a': 1}, cores=1)
+                    if p.mpi_size != size or p.mpi_rank != r:
+                        return {'infra': 'the MPI simulation did not take hold'}
+                    p._max_pos_per_read = inp['batch']
+                    ps.append(p)
+                sched = _Scheduler(size, inp.get('order', 'low-first'))
+                Comm.sched = sched
+                errors = [None] * size
+
+                def worker(r):
+                    tls.rank = r
+                    try:
+                        sched.start(r)
+                        ps[r].compute()
+                    except BaseException as e:    # noqa - reported, never left hanging
+                        errors[r] = '%s: %s' % (type(e).__name__, str(e)[:80])
+                    finally:
+                        sched.finish(r)
+                ths = [threading.Thread(target=worker, args=(r,)) for r in range(size)]
+                for t in ths:
+                    t.start()
+                for t in ths:
+                    t.join()
+                Comm.sched = None
+            out['errors'] = errors
+            grp = ps[0].h5_results_grp
+            status = [int(x) for x in grp['completed_positions'][()]] if grp is not None and 'completed_positions' in grp else None
+            results = [float(x) for x in grp['Results'][()]] if grp is not None and 'Results' in grp else None
+            main = f['G/main'][()]
+            out['status'] = status
+            out['results_ok'] = results is not None and all(results[i] == procs.map_value(main[i])
+                                                             for i in range(n) if mask[i] == 0)
+            out['ranks'] = [{'batches': p.batches} for p in ps]
+            out['calls'] = sorted(procs.read_log(log, m))
+    finally:
+        for k, v in saved_mods.items():
+            if v is None:
+                sys.modules.pop(k, None)
+            else:
+                sys.modules[k] = v
+        h5py.File.driver = saved_driver
+    return out
+
+
+def _oracle_mpi(inp, obs):
+    fails = []
+    if 'infra' in obs:
+        return ['mpi-simulation: %s' % obs['infra']]
+    pend = [i for i, s in enumerate(inp['mask']) if s == 0]
+    what = '%d interleaved ranks, %s, batch limit %d' % (inp['size'], inp.get('order'), inp['batch'])
+    for r, e in enumerate(obs['errors']):
+        if e:
+            fails.append('mpi-rank-raises: rank %d raised %s (%s)' % (r, e, what))
+    taken = [p for r in obs['ranks'] for b in r['batches'] for p in b]
+    if sorted(taken) != pend:
+        fails.append('mpi-partition: the ranks took %s, the pending positions are %s (gap or overlap; %s)' % (sorted(taken), pend, what))
+    if [p for r in obs['ranks'] for b in r['batches'] for p in b] != pend:
+        fails.append('mpi-partition-order: the ranks\' ranges in rank order are not the pending list (%s)' % what)
+    if any(len(b) > inp['batch'] for r in obs['ranks'] for b in r['batches']):
+        fails.append('mpi-batch-limit: a batch exceeds the limit (%s)' % what)
+    if obs.get('status') != [1] * inp['n']:
+        fails.append('mpi-status: positions not marked complete at the end: %s (%s)' % (obs.get('status'), what))
+    if not obs.get('results_ok'):
+        fails.append('mpi-results: a pending position does not hold its result (%s)' % what)
+    if obs.get('calls') != pend:
+        fails.append('mpi-calls: the map function was called for %s, pending %s (%s)' % (obs.get('calls'), pend, what))
+    return fails
 
 
 class FakeComm(object):
@@ -101,6 +281,8 @@ def run_impl(inp, work):
         finally:
             comp_utils.get_MPI = old
         return {'masters': [int(x) for x in r[1]]} if r[0] == 'ok' else {'err': r[1]}
+    if inp['kind'] == 'mpi':
+        return _run_mpi(inp, work)
     n, m, mask = inp['n'], inp['m'], inp['mask']
     ds = {'pos': {'sizes': [n], 'rate': [0], 'labels': ['PX'], 'units': ['a'], 'values': [list(range(n))]},
           'spec': {'sizes': [m], 'rate': [0], 'labels': ['SX'], 'units': ['b'], 'values': [list(range(m))]},
@@ -156,6 +338,8 @@ def oracle(inp, obs):
         if obs.get('masters') != want:
             fails.append('socket-master: ranks sharing a processor name are not grouped under the lowest rank')
         return fails
+    if inp['kind'] == 'mpi':
+        return _oracle_mpi(inp, obs)
     pend = [i for i, s in enumerate(inp['mask']) if s == 0]
     allmarks = [p for r in obs['ranks'] for p in r['marks']]
     if sorted(allmarks) != pend:
@@ -215,6 +399,8 @@ def model_obs(inp, resp):
 def project(inp, obs):
     if inp['kind'] == 'socket':
         return obs
+    if 'ranks' not in obs:
+        return {'err': True}
     pend = [i for i, s in enumerate(inp['mask']) if s == 0]
     ranges = []
     start = 0
@@ -229,7 +415,7 @@ def project(inp, obs):
 
 
 def distribution(cases, obs):
-    d = {'socket': 0, 'ranks': 0, 'jobs_lt_ranks': 0, 'noncontiguous': 0, 'all_done': 0}
+    d = {'socket': 0, 'ranks': 0, 'mpi': 0, 'jobs_lt_ranks': 0, 'noncontiguous': 0, 'all_done': 0}
     for c in cases:
         d[c['kind']] += 1
         if c['kind'] == 'ranks':
